@@ -27,14 +27,16 @@ sys.path.insert(0, str(HERE.parent / "C03"))
 import gen      # noqa: E402  pylint: disable=wrong-import-position
 import rt       # noqa: E402  pylint: disable=wrong-import-position
 import progs    # noqa: E402  pylint: disable=wrong-import-position
+import capture  # noqa: E402  pylint: disable=wrong-import-position
 
 HEADER = """From Coq Require Import String.
-From PV Require Import C03.Names C03.Decls.
+From PV Require Import C03.Names C03.Decls C04.CodeBlocks.
 Open Scope string_scope. Open Scope list_scope.
 Inductive case :=
 | CV (c : list sym * bool)                                   (* hand-built order, gfortran accepts *)
 | CG (c : list sym * option (list nat) * list sym * bool)    (* table, observed order, table with lenient refs, gfortran accepts *)
-| CW (c : (list string * list sym * list (list sym)) * option (list string)).  (* nested scopes, declared names of the written routine *)
+| CW (c : (list string * list sym * list (list sym)) * option (list string))   (* nested scopes, declared names of the written routine *)
+| CB (c : (list string * list sym * list (list string * list sym)) * option (list string)).  (* scopes with CodeBlock names, merged table *)
 Definition by_order (t : list sym) (o : list nat) : list sym :=
   flat_map (fun n => filter (fun d => Nat.eqb (s_id d) n) t) o.
 Definition agrees (c : case) : bool :=
@@ -48,6 +50,7 @@ Definition agrees (c : case) : bool :=
                            | None, None => true
                            | _, _ => false
                            end
+  | CB x => agrees_flatten_cb x
   end."""
 
 PRELUDE = "module extmod\n  implicit none\n" + "".join("  integer, parameter :: s%d = 4\n" % i for i in range(12)) + "end module extmod\n"
@@ -392,6 +395,88 @@ def run(ctx):
                 ctx.hist("compile_errors_not_about_declarations", "nested|" + key)
     ctx.log("nested scopes done, failing=%d" % fails)
 
+    # ------------------------------------------------------------------ names inside CodeBlocks (no capture)
+    from psyclone.psyir.nodes import Call, Routine, IntrinsicCall
+    from psyclone.psyir.transformations import InlineTrans, TransformationError
+    cb_cases, cb_info = [], []
+    run_budget = ctx.pick(0, 25)
+    fixed_cap = sorted((HERE / "corpus_capture").glob("*.f90"))
+    for i in range(-len(fixed_cap), ctx.pick(60, 400)):
+        if i < 0:       # fixed scenarios (seeded change C04-rename-codeblock-guard-case-sensitive), always replayed
+            data, work, drv = "", fixed_cap[i].read_text(), None
+        else:
+            data, work, drv, _wm = capture.gen_inline_program(rng, i)
+        try:
+            tree = rt.read_text(data + work)
+            caller = [r for r in tree.walk(Routine) if r.name == "caller"][0]
+            before = capture.resolutions(caller)
+            call = [k for k in caller.walk(Call) if not isinstance(k, IntrinsicCall)][0]
+        except Exception as e:      # pylint: disable=broad-except
+            ctx.hist("capture_inline", "reader:" + type(e).__name__)
+            continue
+        try:
+            InlineTrans().apply(call)
+        except TransformationError:
+            ctx.hist("capture_inline", "refused")
+            ctx.count(("cap-inline", work), False)
+            continue
+        except Exception as e:      # pylint: disable=broad-except
+            ctx.hist("capture_inline", "crashed:" + type(e).__name__)
+            continue
+        bad = capture.captured(before)
+        ctx.hist("capture_inline", "captured" if bad else "accepted-no-capture")
+        ctx.count(("cap-inline", work), True)
+        written = None
+        try:
+            written = rt.write(tree)
+        except Exception as e:      # pylint: disable=broad-except
+            ctx.hist("capture_inline", "writer:" + type(e).__name__)
+        if bad:
+            report("capture/InlineTrans/codeblock-name", "after inlining, a name inside a CodeBlock no longer denotes the entity it denoted before",
+                   {"stream": "capture-inline", "source": data + work, "violations": bad[:3], "written": written,
+                    "replay": "read the source, InlineTrans().apply(the call in 'caller'), compare CodeBlock name resolution before/after"})
+        elif written and run_budget > 0 and drv:
+            # thorough: compile and run original and transformed program, same output required
+            run_budget -= 1
+            st0, out0 = capture.build_and_run(core, ctx.scratch, "cap%d_o" % i, [data, work, drv])
+            st1, out1 = capture.build_and_run(core, ctx.scratch, "cap%d_t" % i, [written, drv])
+            ctx.hist("capture_inline_run", "%s/%s/%s" % (st0, st1, "same" if out0 == out1 else "different"))
+            if st0 == "ok" and (st1 != "ok" or out0 != out1):
+                report("capture/InlineTrans/output-differs", "inlined program compiles/prints differently from the original",
+                       {"stream": "capture-inline", "source": data + work, "written": written, "original_output": out0,
+                        "transformed": [st1, out1]})
+    for i in range(ctx.pick(60, 400)):
+        src, names = capture.gen_scope_program(rng, i)
+        try:
+            tree = rt.read_text(src)
+            capture.add_inner_symbols(rng, tree, names)
+            cp = tree.copy()
+            rout = cp.walk(Routine)[0]
+            before = capture.resolutions(cp)
+            enc = capture.scope_case(rout, gen, core)
+        except Exception as e:      # pylint: disable=broad-except
+            ctx.hist("capture_scopes", "setup:" + type(e).__name__)
+            continue
+        try:
+            w = FortranWriter()._visit(cp)      # pylint: disable=protected-access
+            obs = "Some " + core.coq_list(core.coq_str(x) for x in capture.merged_names(cp.walk(Routine)[0]))
+        except Exception as e:      # pylint: disable=broad-except
+            ctx.hist("capture_scopes", "merge-refused:" + type(e).__name__)
+            cb_cases.append("CB (%s, None)" % enc)
+            cb_info.append({"source": src, "written": None})
+            ctx.count(("cap-scope", src, enc), False)
+            continue
+        cb_cases.append("CB (%s, %s)" % (enc, obs))
+        cb_info.append({"source": src, "written": w})
+        bad = capture.captured(before)
+        renamed = "_1" in obs
+        ctx.hist("capture_scopes", "captured" if bad else ("renamed-no-capture" if renamed else "no-clash"))
+        ctx.count(("cap-scope", src, enc), renamed)
+        if bad:
+            report("capture/scope-merge/codeblock-name", "after merging the inner scopes, a name inside a CodeBlock no longer denotes the entity it denoted before",
+                   {"stream": "capture-scopes", "source_before_inner_symbols": src, "scopes": enc, "violations": bad[:3], "written": w})
+    ctx.log("codeblock capture streams done, failing=%d" % fails)
+
     # ------------------------------------------------------------------ corpus of witnesses
     for f in sorted((HERE / "corpus").glob("*.f90")):
         src = f.read_text()
@@ -509,6 +594,8 @@ def run(ctx):
     # ------------------------------------------------------------------ model evaluation
     n_tab = len(coq_cases)
     coq_cases += nested_cases
+    n_nest = len(coq_cases)
+    coq_cases += cb_cases
     bad = ctx.coq_eval_failing(HEADER, "case", "agrees", coq_cases, shard=ctx.pick(4000, 2500))
     ctx.cov["disagreements_checked"] = len(bad)
     ctx.log("model cases=%d disagreements=%d failing inputs=%d" % (len(coq_cases), len(bad), fails))
@@ -519,9 +606,12 @@ def run(ctx):
             if i < n_tab:
                 first = {"relation": "decl_valid = gfortran verdict (CV) / gen_decls order and verdict (CG)",
                          "kind": meta[i][0], "spec": meta[i][2], "order": meta[i][3], "unit": units[i], "gfortran_errors": res[i][:3]}
-            else:
+            elif i < n_nest:
                 first = {"relation": "write_decls (scope merge + order) = declared names of the routine written by routine_node",
                          "case": coq_cases[i], "impl": nested_info[i - n_tab]}
+            else:
+                first = {"relation": "flatten_cb (scope merge guarded by CodeBlock names) = merged table / refusal of routine_node",
+                         "case": coq_cases[i], "impl": cb_info[i - n_nest]}
         ctx.violation({"property": "C04", "broken": "proof obligations of Properties/C04.v" if not ok else "model correspondence",
                        "proof_report": rep if not ok else None, "first_differing_case": first, "n_differing": len(bad)},
                       no_input=True)
